@@ -100,7 +100,32 @@ pub fn chain(n: usize, seed: u64) -> P {
     POh { w: vec![0; n + 1], e: e.into_iter().map(|x| x.unwrap()).collect(), s: vec![0], t: vec![n] }
 }
 
+/// wide layers: many operations that become ready at the same time (plus a few dependencies)
+fn wide(r: &mut Rng) -> P {
+    let m = r.range(17, 48);
+    // operation k writes node k; a few operations additionally read the outputs of earlier ones
+    let mut e: Vec<PEdge<u64>> = (0..m).map(|k| PEdge { l: 0, s: vec![], t: vec![k] }).collect();
+    let deps = r.small(m / 2);
+    for _ in 0..deps {
+        let y = r.range(1, m - 1);
+        let x = r.below(y);
+        e[y].s.push(x);
+    }
+    // one collector reading many of them
+    if r.chance(1, 2) {
+        let k = r.range(17, m);
+        e.push(PEdge { l: 1, s: (0..k).collect(), t: vec![] });
+    }
+    let p = POh { w: vec![0; m], e, s: vec![], t: vec![] };
+    let eo = r.perm(p.e.len());
+    let np = r.perm(m);
+    p.renumber(&np, &eo)
+}
+
 fn gen_case(r: &mut Rng, thorough: bool) -> P {
+    if r.chance(1, 40) {
+        return wide(r);
+    }
     match r.below(12) {
         0..=4 => gen::oh(r, &OhParams::dense()),
         5..=6 => gen::oh(r, &OhParams::small()),
@@ -159,6 +184,16 @@ impl C15 {
         }
         if p.e.iter().any(|e| e.s.is_empty() && e.t.is_empty()) {
             ctx.class("zero_arity");
+        }
+        {
+            let (_, depth) = strip_depths(&succ);
+            let mut width = std::collections::BTreeMap::new();
+            for d in depth.iter().flatten() {
+                *width.entry(*d).or_insert(0usize) += 1;
+            }
+            if width.values().any(|&w| w > 16) {
+                ctx.class("layer_wider_than_16");
+            }
         }
         if p.e.len() >= 2 && classes.contains(&"has_dependency") {
             ctx.nontrivial(p);
@@ -339,7 +374,7 @@ impl Monitor for C15 {
     fn rule(&self) -> &'static str {
         "cases: hostile corpus (self loop, cycle with tail, multiplicity 3, parallel edges, zero-arity, unbalanced depths, 3000-operation chain), \
          then seeded diagrams biased to <=6 nodes / <=6 operations / arity <=4 (dependencies of multiplicity 3-16 are common), acyclic-by-construction, \
-         monogamous, cycle-with-tail families, plus raw multigraph adjacencies for the hook-exposed converse/indegree/kahn. Oracle: dependency relation \
+         monogamous, cycle-with-tail families, wide diagrams in which 17-48 operations share a layer, plus raw multigraph adjacencies for the hook-exposed converse/indegree/kahn. Oracle: dependency relation \
          computed by loops; cyclic set by stripping (cross-checked against transitive closure); clauses unvisited-iff-cyclic, layer(y)>layer(x), all layers \
          below the longest chain length; grouped form lists each visited operation once in its own group. non-trivial = >=2 operations (vertices) with >=1 \
          dependency; distinct = hash of the plain diagram / adjacency."
@@ -359,6 +394,7 @@ impl Monitor for C15 {
             ("class:no_operations", 5),
             ("class:depth_ge3", 20),
             ("class:stress_chain_3k", 1),
+            ("class:layer_wider_than_16", 50),
             ("api:layer", 500),
             ("api:layered_operations", 500),
             ("api:kahn", 100),
